@@ -9,7 +9,7 @@ for c in $(git -C /repo rev-list --reverse main..ag-$WS); do
 done
 git merge -q --no-edit ag-$WS >/dev/null 2>&1
 # generated / integrator-owned files: keep ours, regenerate below
-for f in known_findings.txt MANIFEST.json check setup.sh; do
+for f in known_findings.txt MANIFEST.json check setup.sh harness/go.mod; do
   if git status --short | grep -q "^UU $f\|^AA $f"; then git checkout --ours $f 2>/dev/null; git add $f; fi
 done
 for f in $(git status --short | grep '^UU evidence/\|^AA evidence/' | awk '{print $2}'); do git checkout --theirs $f; git add $f; done
